@@ -41,7 +41,7 @@ def generate(ctx):
     for i in range(ctx.n(30, 600)):
         nrec = rng.randint(2, 5)
         ops = G.gen_valid_session(rng, nrec=nrec, small_numbers=True)
-        # default format and a non-empty title: D2 / D11 are C13's findings
+        # default format and a non-empty title: D2 / D13 are C13's findings
         ops = [o for o in ops if o[0] not in ("n", "f") and not (o[0] == "c" and o[1].strip("\n") == "")]
         ops.insert(0, ["n", rng.randint(0, nrec - 1)])
         for o in ops:
